@@ -231,7 +231,7 @@ func (g *projGen) perturb(m *pMethod, structNames []string) string {
 		}
 	}
 	kinds := []string{"add-unbound-param", "add-url-param", "results-none", "results-three", "results-nonerror", "verb-invalid", "verb-unsupported", "unknown-annotation", "bad-status",
-		"verb-case", "dup-path-alias", "swap-path-alias", "prefix-url-param", "alias-steals-variable", "second-route", "alias-collides-with-name", "warn-prop-and-error", "bind-context"}
+		"verb-case", "dup-path-alias", "swap-path-alias", "prefix-url-param", "alias-steals-variable", "second-route", "alias-collides-with-name", "warn-prop-and-error", "bind-context", "unexported-method"}
 	if len(bindIdx) > 0 {
 		kinds = append(kinds, "drop-annot", "dup-annot", "rename-annot-value", "retype-struct", "retype-slice", "bad-alias", "annot-no-value")
 	}
@@ -347,6 +347,9 @@ func (g *projGen) perturb(m *pMethod, structNames []string) string {
 		} else {
 			m.Annots = append(m.Annots, pAnnot{Name: rng.Pick(r, []string{"Query", "Header"}), Value: name})
 		}
+	case "unexported-method":
+		// an annotated method the generated router (another package) could not call: refused, never silently dropped
+		m.Name = strings.ToLower(m.Name[:1]) + m.Name[1:]
 	case "local-context-param":
 		// a user type that is merely named Context is an ordinary (unreferenced) parameter
 		m.Params = append(m.Params, pParam{Name: "rc", Type: "Context"})
@@ -626,9 +629,15 @@ func genProject(r *rng.R, nPerturb int) (pProject, []string) {
 		// Whether the tool supports this or reports an error, it must not crash.
 		p.Types = append(p.Types, pType{Kind: "struct", Name: "Box[T any]", Pkg: "ctl", File: p.Controllers[0].File,
 			// methods on a generic type, declared in a scanned controller file: every function declaration there is looked at
-			Raw: "func (b *Box[T]) Touch() {}\n\nfunc (b Box[T]) Peek() T { return b.V }\n", Fields: []pField{{Name: "V", Type: "T", Tag: `json:"v"`}, {Name: "N", Type: "int", Tag: `json:"n"`}}},
+			Raw: "func (b *Box[T]) Touch() {}\n\nfunc (b Box[T]) Peek() T { return b.V }\n", Fields: append(func() []pField {
+				// fields encoding/json never emits, declared BEFORE the generic one (the reduced struct does not have them: C14-F7)
+				if r.Bool() {
+					return []pField{{Name: "hidden", Type: "int"}, {Name: "Skip", Type: "string", Tag: `json:"-"`}}
+				}
+				return nil
+			}(), pField{Name: "V", Type: "T", Tag: `json:"v"`}, pField{Name: "N", Type: "int", Tag: `json:"n"`})},
 			pType{Kind: "struct", Name: "Rec", Pkg: "ctl", File: "types.go", Fields: []pField{{Name: "A", Type: "string", Tag: `json:"a"`}}})
-		gm := pMethod{Name: "Boxed", File: p.Controllers[0].File, Results: []string{"Box[" + rng.Pick(r, []string{"Rec", "string", "int", "[]Rec", "*Rec", "Box[Rec]"}) + "]", "error"},
+		gm := pMethod{Name: "Boxed", File: p.Controllers[0].File, Results: []string{"Box[" + rng.Pick(r, []string{"Rec", "string", "int", "[]Rec", "*Rec", "Box[Rec]", "struct{ A int }", "struct{}", "map[string]Rec"}) + "]", "error"},
 			Annots: []pAnnot{{Name: "Method", Value: "GET"}, {Name: "Route", Value: "/boxed"}}}
 		p.Controllers[0].Methods = append(p.Controllers[0].Methods, gm)
 	}
@@ -664,7 +673,7 @@ func genProject(r *rng.R, nPerturb int) (pProject, []string) {
 			}
 		}
 	}
-	if len(p.Controllers) > 1 && r.Chance(1, 4) {
+	if len(p.Controllers) > 1 && (r.Chance(1, 4) || (g.sharedNames && r.Bool())) {
 		// the same verb + method route under TWO controllers with different prefixes: no overlap, no warning
 		src := p.Controllers[0].Methods[0]
 		dst := &p.Controllers[1].Methods[0]
@@ -685,7 +694,7 @@ func genProject(r *rng.R, nPerturb int) (pProject, []string) {
 				}
 			}
 			applied = append(applied, "same-route-other-controller")
-			if r.Bool() && len(p.Controllers[1].Annots) > 0 {
+			if (r.Bool() || g.sharedNames) && len(p.Controllers[1].Annots) > 0 {
 				// … and under the SAME prefix: the two methods (of two controllers, possibly with one Go name) serve one
 				// verb + path, each of them must get its `route-conflict` warning
 				for _, a := range p.Controllers[0].Annots {
@@ -699,6 +708,30 @@ func genProject(r *rng.R, nPerturb int) (pProject, []string) {
 					}
 				}
 			}
+		}
+	}
+	if g.sharedNames && len(p.Controllers) > 1 && r.Bool() {
+		// two controllers under ONE prefix, each with a method of the same Go name serving the same verb + path: both
+		// methods are offenders, each must get its own `route-conflict` warning
+		pre := ""
+		for _, a := range p.Controllers[0].Annots {
+			if a.Name == "Route" {
+				pre = a.Value
+			}
+		}
+		ok := false
+		for i := range p.Controllers[1].Annots {
+			if p.Controllers[1].Annots[i].Name == "Route" && pre != "" && !strings.Contains(pre, "{") {
+				p.Controllers[1].Annots[i].Value = pre
+				ok = true
+			}
+		}
+		if ok {
+			for ci := 0; ci < 2; ci++ {
+				p.Controllers[ci].Methods = append(p.Controllers[ci].Methods, pMethod{Name: "Shared", File: p.Controllers[ci].File, Results: []string{"error"},
+					Annots: []pAnnot{{Name: "Method", Value: "GET"}, {Name: "Route", Value: "/shared"}}})
+			}
+			applied = append(applied, "shared-name-duplicate")
 		}
 	}
 	if nPerturb > 0 && r.Chance(1, 4) {
